@@ -110,6 +110,10 @@ func init() {
 			// ---- run spec from a template (inline or ConfigMap)
 			fromCM := mode >= 5
 			yamlSrc := fromCM && rng.Intn(2) == 0
+			// Trial names are <experiment>-<8 characters>: with a 55-63 character Experiment name they exceed the 63 characters
+			// of a DNS label; the run object is still named exactly like its Trial
+			trialName := pick(rng, []string{"trial-1", "trial-1", "trial-1", "t", "e-" + strings.Repeat("x", 53) + "-abcdefgh",
+				strings.Repeat("y", 63) + "-abcdefgh", strings.Repeat("z", 63)})
 			vals := c02Vals
 			if yamlSrc {
 				// an unquoted YAML scalar is re-typed by the YAML parser (3 -> number, "" -> null, true -> boolean): the expected
@@ -137,7 +141,7 @@ func init() {
 				var ref, rtok, val string
 				switch rng.Intn(12) {
 				case 0:
-					ref, rtok, val = "${trialSpec.Name}", "name", "trial-1"
+					ref, rtok, val = "${trialSpec.Name}", "name", trialName
 				case 1:
 					ref, rtok, val = "${trialSpec.Namespace}", "namespace", "ns"
 				case 2:
@@ -210,7 +214,7 @@ func init() {
 				tags = append(tags, "inline-source")
 			}
 			gen := manifest.New(cl.Build())
-			metaTok := fmt.Sprintf("%s %s %s %s %s %s", hx("trial-1"), hx("ns"), hx("Job"), hx("batch/v1"), pairsTok(annotations), pairsTok(labels))
+			metaTok := fmt.Sprintf("%s %s %s %s %s %s", hx(trialName), hx("ns"), hx("Job"), hx("batch/v1"), pairsTok(annotations), pairsTok(labels))
 			if fromCM {
 				op = fmt.Sprintf("C02 cm %s %s %d %s", metaTok, hxPairs(atoks), len(ptoks), strings.Join(ptoks, " "))
 			} else {
@@ -225,7 +229,7 @@ func init() {
 						impl = "panic"
 					}
 				}()
-				got, err := gen.GetRunSpecWithHyperParameters(e, "trial-1", "ns", assigns)
+				got, err := gen.GetRunSpecWithHyperParameters(e, trialName, "ns", assigns)
 				if err != nil {
 					cls := "other"
 					switch {
@@ -246,7 +250,7 @@ func init() {
 				}
 				want := c02Subst(runtime.DeepCopyJSON(obj), sigma).(map[string]interface{})
 				md := want["metadata"].(map[string]interface{})
-				md["name"], md["namespace"] = "trial-1", "ns"
+				md["name"], md["namespace"] = trialName, "ns"
 				tree := reflect.DeepEqual(got.Object, want)
 				if yamlSrc {
 					// oracle for YAML sources: substitute in the text, then parse with the YAML engine
@@ -255,14 +259,14 @@ func init() {
 						txt = strings.ReplaceAll(txt, "${trialParameters."+n+"}", val)
 					}
 					if w2, err2 := kutil.ConvertStringToUnstructured(txt); err2 == nil {
-						w2.SetName("trial-1")
+						w2.SetName(trialName)
 						w2.SetNamespace("ns")
 						tree = reflect.DeepEqual(got.Object, w2.Object)
 					} else {
 						tree = false
 					}
 				}
-				named := got.GetName() == "trial-1" && got.GetNamespace() == "ns"
+				named := got.GetName() == trialName && got.GetNamespace() == "ns"
 				cp := got.DeepCopy()
 				unstructured.RemoveNestedField(cp.Object, "metadata", "name")
 				unstructured.RemoveNestedField(cp.Object, "metadata", "namespace")
